@@ -185,6 +185,12 @@ type Cron struct {
 
 	// The approximate maximum number pending jobs.
 	Limit int
+
+	// running holds the recurring jobs that are executing right now
+	// (and so are not in the Timeline), by id.  A job is put back
+	// after its run only if it is still here: Rem and a new
+	// schedule for the id take it out.
+	running map[string]*CronJob
 }
 
 // NewCron creates a new Cron instanced.
@@ -204,7 +210,8 @@ func NewCron(broadcaster *CronBroadcaster, pause time.Duration, name string, lim
 		time.Now(),
 		pause,
 		name,
-		limit}
+		limit,
+		make(map[string]*CronJob)}
 
 	return c, nil
 }
@@ -352,6 +359,9 @@ LOOP:
 				if ready {
 					// Danger.  ToDo: Be more careful
 					c.Timeline = c.Timeline[1:]
+					if !job.Once() {
+						c.running[job.Id] = job
+					}
 					go func(job *CronJob) {
 						c.run(ctx, job)
 					}(job)
@@ -389,8 +399,16 @@ func (c *Cron) run(ctx *core.Context, job *CronJob) {
 	}
 	if once {
 	} else {
-		// ToDo: Consider an error here.
-		c.schedule(ctx, job, false)
+		// Put the job back unless it was removed or given a
+		// new schedule while it ran.
+		next := job.Expression.Next(time.Now().UTC())
+		c.Lock()
+		if c.running[job.Id] == job {
+			delete(c.running, job.Id)
+			job.Next = next
+			c.insert(ctx, job)
+		}
+		c.Unlock()
 	}
 }
 
@@ -549,6 +567,11 @@ func (c *Cron) Rem(ctx *core.Context, id string) (bool, error) {
 func (c *Cron) rem(ctx *core.Context, id string) (bool, error) {
 	core.Log(core.INFO|CRON, ctx, "Cron.rem", "id", id, "name", c.Name)
 	found := false
+	if _, running := c.running[id]; running {
+		// The job is executing: it must not come back.
+		delete(c.running, id)
+		found = true
+	}
 	for at, job := range c.Timeline {
 		if job.Id == id {
 			copy(c.Timeline[at:], c.Timeline[at+1:])
